@@ -482,6 +482,7 @@ void register_fa_ops() {
 	register_op("fa_unreach", op_unreach); register_op("fa_useless", op_useless); register_op("fa_witness", op_witness);
 	register_op("fa_incl", op_incl); register_op("fa_incl_all", op_incl_all); register_op("fa_dump", op_dump);
 	register_abort_hook(abort_client); register_final_hook(final_check);
+	register_integrity_hook([](const std::string& oracle, const std::string& site) { check_all(oracle, site, "an unrelated call"); });
 }
 
 } // namespace vsim
